@@ -31,7 +31,7 @@ func (eng *Engine) lemmaUnits(theories []string) []*UnitResult {
 func (eng *Engine) proveLemma(cs *ContractSet, lm *Lemma, earlier []string) *UnitResult {
 	u := &Unit{eng: eng, fset: eng.fset, pkgName: "theory", key: lm.Name, c: newCtx(false, nil), cs: cs, nameCount: map[string]int{},
 		paramSyms: map[string]string{}, unfolded: map[string]bool{}, exprCount: map[string]int{}, calledContracts: map[string]bool{},
-		usedLemmas: map[string]bool{}, externalCalls: map[string]bool{}, loopsSeen: map[int]bool{}, sliceDefs: map[string]string{}, lenHints: map[string]int64{}, rangeVars: map[int]*types.Var{},
+		usedLemmas: map[string]bool{}, externalCalls: map[string]bool{}, loopsSeen: map[int]bool{}, sliceDefs: map[string]string{}, lenHints: map[string]int64{}, rangeVars: map[int]*types.Var{}, visitedVars: map[int]*types.Var{},
 		entryVals: map[*types.Var]Term{}}
 	res := &UnitResult{Pkg: "theory", Key: lm.Name, Mode: "int", Contracted: true, Ctx: u.c, Precise: true}
 	st := &State{vars: map[*types.Var]Term{}, heaps: map[string]string{}, ghost: map[string]string{}, tainted: map[string]bool{}}
